@@ -313,7 +313,62 @@ def run_many_intervals(ctx, n_spells):
                         "worst_residual_sums": [[e, float(r)] for r, e in bad], "scale_of_crossing_values": float(scale)}}})
 
 
+def run_long_chain(ctx):
+    """a chain of six thousand intervals, each sharing two levels with the next -- a design matrix of
+    about 1.4e8 entries (more than a gibibyte as a dense array, half a minute for the unchanged code), the size at which
+    a solver might change its method.  No model here (exact elimination on six thousand unknowns is out of reach): the
+    property's own statement decides -- for every interval the residuals against the master curve sum to zero."""
+    import numpy as np
+    common.import_spowtd()
+    import spowtd.fit_offsets as fo
+    rng = ctx.rng
+    n = rng.randint(5900, 6300)
+    ob = "alignment of a chain of six thousand intervals: residual sums vanish"
+    m = {}
+    c = [float(rng.randint(-1000, 1000)) for _ in range(n)]
+    for i in range(n - 1):
+        for h in (2 * i, 2 * i + 1):
+            base = 37.0 * h + rng.randint(-50, 50) * 10
+            # crossing values far from consistent with one another ("any crossing values"): the offsets then wander over a
+            # range ten thousand times the size of a single value, and an iterative solver stopped early is far off
+            m[h] = [(i, base + c[i] + rng.uniform(-5e4, 5e4)), (i + 1, base + c[i + 1] + rng.uniform(-5e4, 5e4))]
+    inp = {"function": "fit_offsets.find_offsets", "generator": "c05.run_long_chain", "intervals": n, "levels": len(m),
+           "note": "too large to inline: regenerate with the seed (the replay re-runs the stream)"}
+    ctx.case(("long-chain", n), True)
+    try:
+        with common.time_limit(900):
+            ids, offs = fo.find_offsets({k: list(v) for k, v in m.items()})
+        off = {int(s): float(o) for s, o in zip(ids, offs)}
+        err = None
+    except BaseException as e:  # noqa
+        if isinstance(e, KeyboardInterrupt):
+            raise
+        off, err = None, "%s: %s" % (type(e).__name__, str(e)[:200])
+    wit = None
+    if err is not None:
+        wit = {"why": "find_offsets fails on a connected chain", "exception": err}
+    elif set(off) != set(range(n)):
+        wit = {"why": "not every interval of the chain got an offset", "intervals": n, "offsets": len(off)}
+    else:
+        sums = np.zeros(n)
+        scale = 1.0
+        for h, v in m.items():
+            vals = [t + off[s_] for s_, t in v]
+            mean = sum(vals) / len(vals)
+            for (s_, _t), val in zip(v, vals):
+                sums[s_] += val - mean
+                scale = max(scale, abs(val))
+        worst = int(np.argmax(np.abs(sums)))
+        if abs(sums[worst]) > 1e-7 * scale:
+            wit = {"why": "an interval's residuals against the master curve do not sum to zero", "interval": worst,
+                   "residual_sum": float(sums[worst]), "scale": scale}
+    ctx.obligation(ob, wit is None)
+    if wit is not None:
+        ctx.violation("impl-violation", "c05Holds", {"input": inp, "impl": err, "oracle": {"name": "c05Holds", "result": False, "witness": wit}})
+
+
 def run(ctx):
+    run_long_chain(ctx)
     run_many_intervals(ctx, ctx.rng.randint(4700, 5200) if ctx.tier == "quick" else ctx.rng.randint(5000, 7000))
     if ctx.tier == "quick":
         run_find_offsets(ctx, 300)
